@@ -108,7 +108,13 @@ var (
 
 func main() {
 	flag.Parse()
-	debug.SetGCPercent(200)
+	// collector timing is part of the schedule space: a quarter of the processes collect very
+	// often (address reuse, finalizers, pool victim caches), the others rarely
+	if (*fW+*fK)%4 == 1 {
+		debug.SetGCPercent(15)
+	} else {
+		debug.SetGCPercent(200)
+	}
 	extBlockEnabled = *fExtBlk
 	siteCover = make([]uint8, rt.NumSites+1)
 	var err error
@@ -222,6 +228,10 @@ func modeRef() error {
 		return err
 	}
 	part := computeSlice(*fW, *fOf, *fReverse)
+	if len(soloInvariants) > 0 {
+		// a violated invariant inside a solo call: leave a note for the merge step
+		writeJSON(*fOut+".inv", soloInvariants)
+	}
 	return writeRefPart(*fOut, part, *fW, *fOf, *fReverse)
 }
 
